@@ -74,6 +74,7 @@ def build():
     defs.append(("bm_chunk_plus", "N", N(int(m.group(2)))))
     fo = fn_body(ds, "from_octets", after="impl<Octs> RtypeBitmap<Octs>")
     m = one(r"let\s+len\s*=\s*\(\s*data\[1\]\s*as\s+usize\s*\)\s*\+\s*(\d+)\s*;", fo, "from_octets len")
+    defs.append(("bm_parse_header", "N", N(int(m.group(1)))))
     m2 = one(r"if\s+len\s*>\s*(\d+)\s*\{", fo, "from_octets upper bound")
     m3 = one(r"if\s+len\s*==\s*(\d+)\s*\{", fo, "from_octets empty window")
     defs.append(("bm_parse_max_chunk", "N", N(int(m2.group(1)))))
@@ -165,12 +166,23 @@ def build():
     defs.append(("hash_iter_from", "N", N(int(m.group(1)))))
     defs.append(("hash_salt_after_data", "bool", B(True)))
     # ---------------------------------------------------------- TTL / class of the generated records
-    ct = fn_body(rs_, "check_ttls")
-    m = one(r"if\s+first\.rtype\(\)\s*==\s*Rtype::(\w+)\s*\{\s*return\s+Ok\(\(\)\)\s*;", ct, "check_ttls exemption")
-    defs.append(("rrsig_ttl_exempt", "N", N(rt(m.group(1), "check_ttls"))))
-    one(r"let\s+first_ttl\s*=\s*first\.ttl\(\)\s*;\s*if\s+slice\.iter\(\)\.any\(\s*\|r\|\s*r\.ttl\(\)\s*!=\s*first_ttl\s*\)\s*\{\s*return\s+Err\(SigningError::MultipleTtlValues\)", ct, "check_ttls comparison")
-    if len(re.findall(r"Rrset::check_ttls\(&slice\)\.expect\(", rs_)) != 3:
-        raise GenError("Rrset::new*: check_ttls is no longer expect()ed in all three constructors")
+    n_expect = len(re.findall(r"Rrset::check_ttls\(&slice\)\.expect\(", rs_))
+    if n_expect == 3:
+        ct = fn_body(rs_, "check_ttls")
+        m = one(r"if\s+first\.rtype\(\)\s*==\s*Rtype::(\w+)\s*\{\s*return\s+Ok\(\(\)\)\s*;", ct, "check_ttls exemption")
+        defs.append(("rrsig_ttl_exempt", "N", N(rt(m.group(1), "check_ttls"))))
+        one(r"let\s+first_ttl\s*=\s*first\.ttl\(\)\s*;\s*if\s+slice\.iter\(\)\.any\(\s*\|r\|\s*r\.ttl\(\)\s*!=\s*first_ttl\s*\)\s*\{\s*return\s+Err\(SigningError::MultipleTtlValues\)", ct, "check_ttls comparison")
+        defs.append(("rrset_new_expects_ttls", "bool", B(True)))
+    elif n_expect == 0 and "check_ttls" not in rs_ and not re.search(r"TTLs should be the same", rs_):
+        # Rrset::new no longer looks at the TTLs
+        for ctor in ("new", "new_from_refs", "new_from_owned"):
+            body = fn_body(rs_, ctor, after="impl<'a, N, D> Rrset<'a, N, D>")
+            if re.search(r"expect\(|unwrap\(|panic!|assert", body):
+                raise GenError("Rrset::%s: unexpected panic site" % ctor)
+        defs.append(("rrsig_ttl_exempt", "N", N(RT["RRSIG"])))
+        defs.append(("rrset_new_expects_ttls", "bool", B(False)))
+    else:
+        raise GenError("Rrset::new*: check_ttls is expect()ed in %d of the three constructors" % n_expect)
     one(r"nsec_ttl\s*=\s*Some\(\s*min\(\s*soa_data\.minimum\(\)\s*,\s*soa_rr\.ttl\(\)\s*\)\s*\)\s*;\s*zone_class\s*=\s*Some\(\s*rrset\.class\(\)\s*\)\s*;", g, "generate_nsecs ttl/class")
     defs.append(("ttl_is_min", "bool", B(True)))
     if len(re.findall(r"zone_class\.unwrap\(\)\s*,\s*nsec_ttl\.unwrap\(\)", g)) != 2:
@@ -185,6 +197,12 @@ def build():
     if m.group(1) != m2.group(1):
         raise GenError("NSEC3 and NSEC3PARAM classes differ")
     defs.append(("nsec3_class", "N", N(int(mc.group(1)))))
+    # the parameters handed to every NSEC3 and to the NSEC3PARAM record
+    calls = re.findall(r"mk_nsec3\(\s*&name\s*,\s*config\.params\.hash_algorithm\(\)\s*,\s*config\.params\.flags\(\)\s*,\s*config\.params\.iterations\(\)\s*,\s*config\.params\.salt\(\)\s*,\s*apex_owner\s*,\s*bitmap\s*,\s*nsec3_ttl\.unwrap\(\)\s*,?\s*\)", g3n)
+    if len(calls) != 2:
+        raise GenError("generate_nsec3s: the two mk_nsec3(&name, config.params.*, apex_owner, bitmap, nsec3_ttl.unwrap()) calls changed")
+    one(r"Nsec3::new\(\s*alg\s*,\s*flags\s*,\s*iterations\s*,\s*salt\.clone\(\)\s*,\s*placeholder_next_owner\s*,\s*bitmap\.finalize\(\)\s*,?\s*\)", mk, "mk_nsec3 Nsec3::new arguments")
+    one(r"Record::new\(\s*apex_owner\s*\.try_to_name::<Octs>\(\)\s*\.map_err\([^)]*\)\?\s*\.into\(\)\s*,\s*Class::\w+\s*,\s*nsec3param_ttl\s*,\s*config\.params\.clone\(\)\s*,?\s*\)", g3n, "NSEC3PARAM record")
     # ---------------------------------------------------------- record equality used by SortedRecords' dedup
     rd = strip_comments(read("src/base/rdata.rs"))
     ib = impl_body(rd, r"impl<Octs,\s*Other>\s+PartialEq<UnknownRecordData<Other>>\s+for\s+UnknownRecordData<Octs>\s+where[^{]*\{")
@@ -201,6 +219,12 @@ def build():
     rc = strip_comments(read("src/base/record.rs"))
     rb = impl_body(rc, r"impl<N,\s*NN,\s*D,\s*DD>\s+PartialEq<Record<NN,\s*DD>>\s+for\s+Record<N,\s*D>\s+where[^{]*\{")
     one(r"self\.owner\s*==\s*other\.owner\s*&&\s*self\.class\s*==\s*other\.class\s*&&\s*self\.data\s*==\s*other\.data", fn_body(rb, "eq"), "Record::eq")
+    cc = fn_body(rc, "canonical_cmp", after="impl<N, NN, D, DD> CanonicalOrd<Record<NN, DD>> for Record<N, D>")
+    keys = re.findall(r"match\s+(self\.class\.cmp\(&other\.class\)|self\.owner\.name_cmp\(&other\.owner\)|self\.rtype\(\)\.cmp\(&other\.rtype\(\)\))\s*\{\s*Ordering::Equal\s*=>\s*\{\}\s*res\s*=>\s*return\s+res\s*,?\s*\}", cc)
+    if [k.split(".")[1].split("(")[0] for k in keys] != ["class", "owner", "rtype"]:
+        raise GenError("Record::canonical_cmp: key order changed: %r" % keys)
+    one(r"self\.data\.canonical_cmp\(&other\.data\)\s*$", cc, "Record::canonical_cmp last key")
+    defs.append(("record_cmp_class_first", "bool", B(True)))
     return defs
 
 if __name__ == "__main__":
